@@ -60,8 +60,8 @@ func c18Gating(r *an.Run, m *runModel) {
 	}
 	call := calls[0]
 	r.Check(call.Call.Args[0] == valueOfExtract(m.parse, 0), short(f)+"|predicate-arg", call.Pos(), "the predicate inspects the file that was just parsed")
-	flagBrs := m.optBranches("SkipGenerated")
-	r.Check(len(flagBrs) > 0 && unreachableWithout(call.Block(), edgesWhen(flagBrs, true)), short(f)+"|only-with-flag", call.Pos(), "the predicate is evaluated only under --skip-generated (without the flag the markers have no effect)")
+	flagOff := m.hyp(map[string]bool{"SkipGenerated": false}, nil)
+	r.Check(m.unreachableUnder(call.Block(), flagOff), short(f)+"|only-with-flag", call.Pos(), "the predicate is evaluated only under --skip-generated (without the flag the markers have no effect)")
 	// skip arm: only a log call, then next file
 	brs := an.BranchesOn(f, call)
 	if !r.Check(len(brs) > 0, short(f)+"|branch", call.Pos(), "Run branches on the predicate's result") {
@@ -84,15 +84,13 @@ func c18Gating(r *an.Run, m *runModel) {
 	}
 	// order: before Apply and before every output
 	r.Check(call.Block().Dominates(m.apply.Block()) || reachesOnlyAfter(m, call), short(f)+"|before-apply", call.Pos(), "the skip decision is taken before any change is applied")
-	r.Check(flagDecisionBeforeApply(m, flagBrs), short(f)+"|flag-before-apply", call.Pos(), "the flag is consulted before (*patchRunner).Apply on every path")
+	skipping := m.hyp(map[string]bool{"SkipGenerated": true}, map[ssa.Value]bool{ssa.Value(call): true})
+	r.Check(!m.iterationUnder(m.parse, skipping)[m.apply.Block()], short(f)+"|flag-before-apply", call.Pos(), "with the flag set and the predicate true, (*patchRunner).Apply is not reached in that iteration")
 	// not-skipped paths reach Apply
 	cont := m.iterationFrom(call, edgesWhen(brs, true))
 	r.Check(cont[m.apply.Block()], short(f)+"|not-generated-continues", call.Pos(), "a file that is not generated is processed exactly as without the flag (reaches Apply)")
-	for _, br := range flagBrs {
-		off := br.If.Block().Succs[br.EdgeWhen(false)]
-		reach := an.Reach([]*ssa.BasicBlock{off}, func(b *ssa.BasicBlock, j int) bool { return b.Succs[j] == m.loop.Loop.Header })
-		r.Check(reach[m.apply.Block()] && !reach[call.Block()], short(f)+"|flag-off-continues", br.If.Pos(), "without the flag the pipeline goes straight to Apply without evaluating the predicate")
-	}
+	off := m.iterationUnder(m.parse, flagOff)
+	r.Check(off[m.apply.Block()] && !off[call.Block()], short(f)+"|flag-off-continues", call.Pos(), "without the flag the pipeline goes straight to Apply without evaluating the predicate")
 	r.Count("predicate call sites", len(calls))
 }
 
@@ -111,15 +109,6 @@ func reachesOnlyAfter(m *runModel, call *ssa.Call) bool {
 	brs := an.BranchesOn(m.run, call)
 	region := m.iterationFrom(call, edgesWhen(brs, false))
 	return !region[m.apply.Block()]
-}
-
-func flagDecisionBeforeApply(m *runModel, flagBrs []an.BranchOn) bool {
-	for _, br := range flagBrs {
-		if br.If.Block().Dominates(m.apply.Block()) {
-			return true
-		}
-	}
-	return false
 }
 
 func c18ParserMode(r *an.Run, m *runModel) {
